@@ -10,6 +10,7 @@ static void init(void)
 	seeds_on = (int)vp_param("seeded_starts", 1, 1);
 	level_choices = (int)vp_param("skiplist_level_choices", 0, 0);
 	prefix_second_iter = (int)vp_param("prefix_second_iter", 0, 0);
+	parked_seeds = (int)vp_param("parked_iterators_at_start", 0, 0);
 	vp_count_name(0, "executions_cut_at_known_finding_trigger");
 }
 int main(int argc, char **argv)
